@@ -98,7 +98,7 @@ CLAIMED["C09"] = dict(
 
 CLAIMED["C05"] = dict(
     text="Coq: CSC-column model of the sparse output path; element-wise product, scaling, dense->CSC conversion and sparse dummy encoding hold at every row "
-         "the numbers of the dense computation, and so does the whole column of a term -- scale times the reduce of any number of factor columns -- with the one-entry-per-row invariant proved for every primitive and kept by the product; the regenerated entry-point table forwards drop_rows on every edge. /repo's sparse primitives are "
+         "the numbers of the dense computation, and so does the whole column of a term -- scale times the reduce of any number of factor columns -- with the one-entry-per-row invariant proved for every primitive and kept by the product; the sparse Kronecker product of a whole term (the model of _get_columns_for_term, compared with the real method on synthetic CSC columns) is, row by row, the dense Kronecker product times the scale; the regenerated entry-point table forwards drop_rows on every edge. /repo's sparse primitives are "
          "compared with the model; pandas/numpy/sparse x 6 entry points x {pandas, narwhals/pandas, narwhals/pyarrow} are compared pairwise on the "
          "implementation (same numbers, same column order).",
     note="Coq kernel + vm_compute; narwhals/pyarrow twins are a second implementation (differential only); container construction trusted",
